@@ -45,7 +45,7 @@ type quiet struct{}
 
 func (quiet) Name() string                                  { return "quiet" }
 func (quiet) Configure(config map[string]interface{}) error { return nil }
-func (quiet) Printf(format string, v ...interface{})       {}
+func (quiet) Printf(format string, v ...interface{})        {}
 
 func uv(x uint64) []byte {
 	b := make([]byte, 0, 10)
